@@ -10,6 +10,9 @@ imports this module in every interpreter of the run: the CLI process and, becaus
   finish   list of chain numbers: chain finish[j] does not return before finish[j-1] has returned
   sleep    {chain: [seconds before the chain body, seconds after it]}
   timeout  upper bound in seconds for each wait (a wait that times out is recorded, never fatal)
+  (with `oneworker`, the values the two process-wide memo tables of phyclone.tree.utils hold are *perturbed in place* before a
+           worker starts a further chain: a chain that begins from cold tables never sees them, a chain that reads an entry
+           left by an earlier chain changes visibly - this turns a last-bit dependence into a deterministic difference)
   oneworker  seconds: every pool worker except the first one to come up sleeps this long at interpreter start, so
            that the first worker takes all chains one after the other (the schedule a slow `spawn` produces on a busy
            machine for short chains): a chain's trace must not depend on what its process ran before
@@ -58,6 +61,34 @@ def _patch(module, spec):
     if getattr(orig, "_c18_wrapped", False):
         return
     sig = inspect.signature(orig)
+    state = {"chains_done": 0, "arrays": []}
+    if spec.get("oneworker"):
+        try:
+            import numpy as _np
+            import phyclone.tree.utils as _tu
+            import phyclone.tree.tree_node as _tn
+
+            def _recording(fn):
+                @functools.wraps(fn)
+                def wrapper(*a, **k):
+                    r = fn(*a, **k)
+                    if isinstance(r, _np.ndarray) and r.ndim >= 1:
+                        state["arrays"].append(r)
+                    return r
+
+                for attr in ("cache_info", "cache_clear", "__wrapped__"):
+                    if hasattr(fn, attr):
+                        setattr(wrapper, attr, getattr(fn, attr))
+                return wrapper
+
+            _conv = _recording(_tu._convolve_two_children)
+            _logs = _recording(_tu.compute_log_S)
+            _tu._convolve_two_children = _conv
+            _tu.compute_log_S = _logs
+            if getattr(_tn, "compute_log_S", None) is not None:
+                _tn.compute_log_S = _logs
+        except Exception:
+            pass
 
     @functools.wraps(orig)
     def run_phyclone_chain(*args, **kwargs):
@@ -72,9 +103,21 @@ def _patch(module, spec):
             _wait_for(spec, f"start_{start[start.index(chain) - 1]}", waited)
         if pre:
             time.sleep(pre)
+        poisoned = 0
+        if state["chains_done"] > 0 and state["arrays"]:
+            # this process has run a chain before: whatever its memo tables still hold is made visibly wrong
+            for arr in state["arrays"]:
+                try:
+                    arr += 0.37
+                    poisoned += 1
+                except Exception:
+                    pass
+        state["arrays"] = []
         _mark(spec, f"start_{chain}", {"chain": chain, "pid": os.getpid(), "t": time.time(), "hashseed": os.environ.get("PYTHONHASHSEED"),
-                                      "cpus": sorted(os.sched_getaffinity(0)) if hasattr(os, "sched_getaffinity") else None})
+                                      "cpus": sorted(os.sched_getaffinity(0)) if hasattr(os, "sched_getaffinity") else None,
+                                      "stale_table_values_perturbed": poisoned})
         result = orig(*args, **kwargs)
+        state["chains_done"] += 1
         if chain in finish and finish.index(chain) > 0:
             _wait_for(spec, f"finish_{finish[finish.index(chain) - 1]}", waited)
             time.sleep(0.25)  # let the predecessor's result reach the parent first
